@@ -16,7 +16,7 @@ from hypothesis import strategies as st
 
 from .. import ast as A
 from ..runner import Outcome, fail, open_features
-from ..strategies import Cfg, query_case
+from ..strategies import Cfg, query_case, chance
 from ..world import build_entities
 from ..build import build_query, rows_of
 from ..qcheck import (reference_rows, compare_sets, case_features, all_vars_selected, render_query, used_vars)
@@ -44,6 +44,11 @@ def _cfg(tier):
 
 @st.composite
 def _case(draw, tier):
+    if chance(draw, 1, 6):
+        # the flatten family (generator and builder of C16): a flattened element takes several values under ONE binding of
+        # its variables, which result caches have to tell apart
+        from . import c16
+        return {"family": "flatten", "flat": draw(c16.strategy(tier))}
     c = draw(query_case(_cfg(tier)))
     # optionally abandon an evaluation after k results before the compared evaluations (in BOTH configurations)
     c["pre_partial"] = draw(st.sampled_from([None, None, None, 1, 1, 2]))
@@ -96,7 +101,39 @@ def evaluate_config(case, objs, caching: bool):
     return r1, r2
 
 
+def _check_flatten(case) -> Outcome:
+    from . import c16
+    from entity_query_language.cache_data import enable_caching, disable_caching
+    fc = case["flat"]
+    objs = build_entities(fc["ents"])
+    classes = ["family_flatten", "select_" + fc["select"], "cond_" + fc["cond_kind"]]
+    res = {}
+    with _HitCounter() as hc:
+        for caching in (False, True):
+            (enable_caching if caching else disable_caching)()
+            try:
+                q, extract = c16.build(fc, objs)
+                res[caching] = [extract(list(q.evaluate())) for _ in range(3)]
+            except Exception as e:
+                return fail("exception_" + ("cached" if caching else "uncached"), f"flatten query: {type(e).__name__}: {e}",
+                            classes=classes, features=classes)
+            finally:
+                enable_caching()
+    nontrivial = hc.hits > 0 and bool(res[False][0])
+    for i in range(3):
+        for name, x, y in ((f"evaluation {i + 1}: cached vs uncached", res[True][i], res[False][i]),
+                           (f"cached: evaluation {i + 1} vs first", res[True][i], res[True][0])):
+            bad = compare_sets(y, x, False)      # as sets: repeated identical rows are C16's business
+            if bad:
+                return fail("cache_" + bad[0], f"flatten query, {name}: {bad[1]}", nontrivial=nontrivial, classes=classes,
+                            features=classes, extra={"cache_hits": hc.hits})
+    return Outcome(True, nontrivial=nontrivial, classes=classes + (["cache_hit"] if hc.hits else []), features=classes,
+                   extra={"cache_hits": hc.hits})
+
+
 def check(case) -> Outcome:
+    if case.get("family") == "flatten":
+        return _check_flatten(case)
     objs = build_entities(case["ents"])
     feats = case_features(case)
     expected, n_sat, n_all = reference_rows(case, objs)
@@ -153,4 +190,8 @@ def check(case) -> Outcome:
     return Outcome(True, nontrivial=nontrivial, classes=classes, features=feats, extra=extra)
 
 
-render = render_query
+def render(case):
+    if case.get("family") == "flatten":
+        from . import c16
+        return {"family": "flatten", **c16.render(case["flat"])}
+    return render_query(case)
